@@ -33,10 +33,10 @@ import (
 
 	eth2apiv1 "github.com/attestantio/go-eth2-client/api/v1"
 	"github.com/attestantio/go-eth2-client/spec/phase0"
-	"github.com/ethereum/go-ethereum/common"
 	specqbft "github.com/bloxapp/ssv-spec/qbft"
 	spectypes "github.com/bloxapp/ssv-spec/types"
 	"github.com/bloxapp/ssv-spec/types/testingutils"
+	"github.com/ethereum/go-ethereum/common"
 	pubsub "github.com/libp2p/go-libp2p-pubsub"
 	pspb "github.com/libp2p/go-libp2p-pubsub/pb"
 	"github.com/libp2p/go-libp2p/core/peer"
@@ -48,8 +48,8 @@ import (
 	"github.com/bloxapp/ssv/network/commons"
 	"github.com/bloxapp/ssv/networkconfig"
 	operatordatastore "github.com/bloxapp/ssv/operator/datastore"
-	"github.com/bloxapp/ssv/operator/keys"
 	"github.com/bloxapp/ssv/operator/duties/dutystore"
+	"github.com/bloxapp/ssv/operator/keys"
 	nodestorage "github.com/bloxapp/ssv/operator/storage"
 	"github.com/bloxapp/ssv/protocol/v2/blockchain/beacon"
 	"github.com/bloxapp/ssv/protocol/v2/message"
@@ -72,7 +72,7 @@ type gmsg struct {
 	from   int
 	raw    *spectypes.SSVMessage
 	data   []byte
-	kind   int // index into c10Kinds
+	kind   int  // index into c10Kinds
 	signed bool // sent inside a signed envelope
 	sub    string
 	desc   string
@@ -124,34 +124,34 @@ type tkey struct {
 }
 
 type c10 struct {
-	w      *world
-	d      *sim.D
-	n      int
-	mode   int
-	netCfg networkconfig.NetworkConfig
-	mvs    []validation.MessageValidator // per operator, plus the observer at index n
-	logs   []*observer.ObservedLogs
-	ds     *dutystore.Store
-	topic  string
-	hp     c10heap
-	seq    uint64
-	byz    int64
-	mute   [][]int64 // [op][kind] -> recipients that do not get it
-	deaf   []int64   // [op] -> senders it does not hear
-	rxoff  int64     // operators that receive nothing (connectivity outage, inbound)
-	txoff  int64     // operators whose messages reach nobody (outbound)
-	cut    map[[2]int]bool // single directed links that are down (mode 2)
-	lat    [][]time.Duration
-	msgs   []*gmsg
-	tgen   map[tkey]int
-	start0 time.Time
-	slot0  phase0.Slot
-	lastT0 time.Time
-	judged int
-	duties int
-	epochN map[string]int // role|epoch -> duties planned (attester / aggregator: <= 2 per epoch)
-	maxRnd specqbft.Round
-	rsa    []keys.OperatorPrivateKey // operator keys of the signed-envelope layer
+	w       *world
+	d       *sim.D
+	n       int
+	mode    int
+	netCfg  networkconfig.NetworkConfig
+	mvs     []validation.MessageValidator // per operator, plus the observer at index n
+	logs    []*observer.ObservedLogs
+	ds      *dutystore.Store
+	topic   string
+	hp      c10heap
+	seq     uint64
+	byz     int64
+	mute    [][]int64       // [op][kind] -> recipients that do not get it
+	deaf    []int64         // [op] -> senders it does not hear
+	rxoff   int64           // operators that receive nothing (connectivity outage, inbound)
+	txoff   int64           // operators whose messages reach nobody (outbound)
+	cut     map[[2]int]bool // single directed links that are down (mode 2)
+	lat     [][]time.Duration
+	msgs    []*gmsg
+	tgen    map[tkey]int
+	start0  time.Time
+	slot0   phase0.Slot
+	lastT0  time.Time
+	judged  int
+	duties  int
+	epochN  map[string]int // role|epoch -> duties planned (attester / aggregator: <= 2 per epoch)
+	maxRnd  specqbft.Round
+	rsa     []keys.OperatorPrivateKey // operator keys of the signed-envelope layer
 	tooHigh map[string]specqbft.Round
 }
 
@@ -1033,8 +1033,8 @@ func init() {
 			}
 			return c
 		},
-		Real: append([]string{"message/validation.MessageValidator.ValidatePubsubMessage (one instance per operator and one for a non-committee observer) with real operator/storage shares and operator/duties/dutystore", "protocol/v2/ssv/queue priority queue + prioritizer (the consumer's state/filter logic of validator.ConsumeQueue re-implemented, 30 lines)", "roundtimer.RoundTimer.RoundTimeout (deadlines)"}, realList...),
-		Stub: []string{"transport (per-link latency, omission, outage decided by the simulator)", "round timer goroutines (the event loop fires the deadline the real RoundTimer computes)", "beacon node, key manager as in C03", "p2p layer: Broadcast's envelope step re-implemented (sign with the real operator key when the fork is active at the sender's clock)", "clock (synctest bubble)"},
-		Rule: "committees of 4 and 7, 1-3 of the 7 roles, 1-3 slots, duties started at slot start + role offset + per-operator lag; per-link latency 1..lat_max ms (2/20/100/250). mode 0: fault-free, FIFO links; mode 1: <= f omission-faulty operators (named relative to the round-1 leader) that withhold chosen message kinds from chosen peers and ignore chosen senders; mode 2: additionally connectivity outages of arbitrary operator sets (messages lost, never late). Oracle at every (message of a correct operator, correct receiving peer): verdict != reject; in mode 0 verdict == accept. Non-trivial: >= 20 judged validations.",
+		Real:        append([]string{"message/validation.MessageValidator.ValidatePubsubMessage (one instance per operator and one for a non-committee observer) with real operator/storage shares and operator/duties/dutystore", "protocol/v2/ssv/queue priority queue + prioritizer (the consumer's state/filter logic of validator.ConsumeQueue re-implemented, 30 lines)", "roundtimer.RoundTimer.RoundTimeout (deadlines)"}, realList...),
+		Stub:        []string{"transport (per-link latency, omission, outage decided by the simulator)", "round timer goroutines (the event loop fires the deadline the real RoundTimer computes)", "beacon node, key manager as in C03", "p2p layer: Broadcast's envelope step re-implemented (sign with the real operator key when the fork is active at the sender's clock)", "clock (synctest bubble)"},
+		Rule:        "committees of 4 and 7, 1-3 of the 7 roles, 1-3 slots, duties started at slot start + role offset + per-operator lag; per-link latency 1..lat_max ms (2/20/100/250). mode 0: fault-free, FIFO links; mode 1: <= f omission-faulty operators (named relative to the round-1 leader) that withhold chosen message kinds from chosen peers and ignore chosen senders; mode 2: additionally connectivity outages of arbitrary operator sets (messages lost, never late). Oracle at every (message of a correct operator, correct receiving peer): verdict != reject; in mode 0 verdict == accept. Non-trivial: >= 20 judged validations.",
 		Assumptions: []string{"a correct peer knows the validator's duties (shared duty store) and share", "timing assumption as implemented: timers fire at the RoundTimer deadline, every delivered message arrives within lat_max (+jitter) <= 500 ms of being sent; lost messages (omission, outage) are never delivered later", "at most two attester / aggregator / registration / exit duties per epoch (one assigned, one after a re-org)"}}
 }
